@@ -152,4 +152,60 @@ theorem enum_unsigned_could (k uw : Nat) (hk : 1 ≤ k) (hkuw : k ≤ uw) (buf :
     · exact Or.inl hkB'
     · right; rw [double_shl_eq hk (by omega), hm]; exact hxk
 
+/-- What `TryToWrite` stores represents the value: for every accepted value the raw pattern
+fits the field and decodes (per the documentation) to the value. -/
+theorem encode_spec (h : Placed bb o w) (direct : Bool) (ty : Ty) (hty : TypeFits ty w)
+    (hs : ∀ uw, ty = .enum uw true → w = bb.W) (t : IntT) (x : Int) (ha : ArgOk ty w t x)
+    (hc : (fieldView ty direct bb o w).couldWrite t x = true) :
+    (fieldView ty direct bb o w).encode x < 2 ^ w ∧
+    decodeSpec ty w ((fieldView ty direct bb o w).encode x) = some x := by
+  have hw64 := placed_w_le h
+  have hVW := le_leastWidth hw64
+  cases ty with
+  | uint =>
+    obtain ⟨h0, hlt⟩ := (uint_could w h.w_pos hw64 _ t x ha.1 ha.2).mp hc
+    simp only [View.encode, fieldView, View.VW, decodeSpec]
+    rw [ofInt_of_nonneg h0 (by have := pow_le_pow hVW; omega)]
+    exact ⟨by omega, by congr 1; omega⟩
+  | int =>
+    obtain ⟨hlo, hhi⟩ := (int_could w h.w_pos hw64 _ t x ha.1).mp hc
+    simp only [View.encode, fieldView, fieldBuf_W, decodeSpec]
+    rw [maskToNBits_ofInt (placed_w_le_W h)]
+    obtain ⟨he, hlt⟩ := twos_ofInt (by have := h.w_pos; omega) hlo hhi
+    exact ⟨hlt, by rw [he]⟩
+  | bcd =>
+    obtain ⟨h0, hlt⟩ := ha
+    obtain ⟨n, rfl⟩ : ∃ n : Nat, x = n := ⟨x.toNat, by omega⟩
+    simp only [View.couldWrite, fieldView, View.VW, Bool.and_eq_true, decide_eq_true_eq,
+      Int.toNat_natCast] at hc
+    obtain ⟨hl, hok, hv⟩ := (bcd_could_write (v := n) h.w_pos hw64).2 (of_decide_eq_true hc.1)
+    have he : ofInt (leastWidth w) (n : Int) = n := ofInt_natCast (by exact_mod_cast hlt)
+    simp only [View.encode, fieldView, View.VW, decodeSpec, he]
+    exact ⟨hl, by rw [if_pos hok, hv]⟩
+  | flag =>
+    simp only [TypeFits] at hty; subst hty
+    rcases ha with rfl | rfl <;> simp [View.encode, decodeSpec, fieldView]
+  | float =>
+    have h0 : 0 ≤ x := ha.1
+    have hlt : x < ((2 ^ w : Nat) : Int) := ha.2
+    simp only [View.encode, fieldView, decodeSpec]
+    rw [ofInt_of_nonneg h0 hlt]
+    exact ⟨by omega, by congr 1; omega⟩
+  | enum uw s =>
+    cases s with
+    | false =>
+      have hlt := (enum_unsigned_could w uw h.w_pos hty (fieldBuf direct bb o w)
+        (by rw [fieldBuf_W]; exact placed_w_le_W h) t x ha.1 ha.2).mp hc
+      simp only [View.encode, fieldView, fieldBuf_W, decodeSpec]
+      have hwW := pow_le_pow (placed_w_le_W h)
+      have h0 : 0 ≤ x := ha.1
+      rw [ofInt_of_nonneg h0 (by omega)]
+      exact ⟨by omega, by congr 1; omega⟩
+    | true =>
+      simp only [TypeFits] at hty; subst hty
+      have hW := hs uw rfl
+      simp only [View.encode, fieldView, fieldBuf_W, decodeSpec, ← hW]
+      obtain ⟨he, hlt⟩ := twos_ofInt (by have := h.w_pos; omega) ha.1 ha.2
+      exact ⟨hlt, by rw [he]⟩
+
 end Emboss.Scalar
